@@ -100,6 +100,23 @@ def static_classes(prog):
         if isinstance(n, ast.AugAssign) and isinstance(n.target, ast.Name):
             if any(isinstance(x, ast.Name) and isinstance(x.ctx, ast.Load) for x in ast.walk(n.value)):
                 cls['augassign_value_reads_not_ld_wrapped'] = True
+    # (8) a `finally` block containing a raise, on a try whose body/handlers contain return/break/continue: when the
+    #     raise replaces the pending jump and is caught in the same function, the lowered jump flag stays set
+    def _own(nodes, kinds):
+        out = []
+        stack = list(nodes)
+        while stack:
+            x = stack.pop()
+            if isinstance(x, (ast.FunctionDef, ast.Lambda, ast.ClassDef)):
+                continue
+            if isinstance(x, kinds):
+                out.append(x)
+            stack.extend(ast.iter_child_nodes(x))
+        return out
+    for n in ast.walk(fn):
+        if isinstance(n, ast.Try) and n.finalbody:
+            if _own(n.finalbody, (ast.Raise,)) and _own(n.body + n.handlers + n.orelse, (ast.Return, ast.Break, ast.Continue)):
+                cls['raise_in_finally_over_jump'] = True
     return cls
 
 
@@ -154,7 +171,7 @@ def classify(prog, mod, args, dec, static, orig_outcome=None):
         return 'nested_fn_param_leaks_into_enclosing_bound'
     if 'augassign_value_reads_not_ld_wrapped' in static and orig_outcome == ('exc', 'NameError'):
         return 'augassign_value_reads_not_ld_wrapped'
-    for k in ('except_handler_binds_name', 'try_else_block_starts_with_if', 'chained_comparison_effectful_middle_operand'):
+    for k in ('raise_in_finally_over_jump', 'except_handler_binds_name', 'try_else_block_starts_with_if', 'chained_comparison_effectful_middle_operand'):
         if k in static:
             return k
     return None
